@@ -47,6 +47,10 @@ REQUIRED_SHAPES = ['ok', 'chain', 'diamond', 'double_import', 'same_base_name',
                    'shadow_real_first', 'shadow_decoy_first',
                    'lowercase_private', 'redefinition_in_module',
                    'functor_const_in_module', 'functor_const_across_import']
+# quick tier: at least this many graphs of a shape (default 5)
+MIN_PER_SHAPE = {'redefinition_in_module': 20, 'lowercase_private': 20,
+                 'functor_const_in_module': 20,
+                 'functor_const_across_import': 12}
 REQUIRED_ACTIONS = ['BeginFile', 'SkipParsed', 'Circular', 'RejectImport',
                     'FinishFile', 'Emit']
 PARSERS = ('PY', 'CPP')
@@ -131,9 +135,10 @@ def Select(cases, tier):
   have = collections.Counter(s for c in out for s in c['shapes'])
   chosen = {c['id'] for c in out}
   for s in REQUIRED_SHAPES:
-    if have[s] < 5:
+    need = MIN_PER_SHAPE.get(s, 5)
+    if have[s] < need:
       extra = [c for c in cases if s in c['shapes'] and c['id'] not in chosen]
-      for c in rng.sample(extra, min(len(extra), 5 - have[s])):
+      for c in rng.sample(extra, min(len(extra), need - have[s])):
         out.append(c)
         chosen.add(c['id'])
         have.update(c['shapes'])
